@@ -1439,6 +1439,28 @@ class Interp:
                 if None not in (lo, hi, xo) and lo[0] == hi[0] == xo[0] and kind in ("Range", "RangeInclusive"):
                     r = lo[1] <= xo[1] <= hi[1] if kind == "RangeInclusive" else lo[1] <= xo[1] < hi[1]
                     return self._multi(path, frame, t, [(INT(int(r), 8), path)], depth)
+                if kind in ("Range", "RangeInclusive") and width_of(x) == width_of(rg[3][0]):
+                    # symbolic bounds: lo <= x && x < hi (x <= hi), each comparison decided or forked
+                    w_ = width_of(x)
+                    c1 = self.binop(path, "Le", rg[3][0], x, 8)
+                    c2 = self.binop(path, "Le" if kind == "RangeInclusive" else "Lt", x, rg[3][1], 8)
+                    states = [(path, 1)]
+                    for c in (c1, c2):
+                        nxt = []
+                        for p, acc in states:
+                            if not acc:
+                                nxt.append((p, 0))
+                                continue
+                            d = self.decide(p, c)
+                            if d is None:
+                                p2 = p.copy()
+                                self.assume_cond(p, c, 1)
+                                self.assume_cond(p2, c, 0)
+                                nxt += [(p, 1), (p2, 0)]
+                            else:
+                                nxt.append((p, int(bool(d))))
+                        states = nxt
+                    return self._multi(path, frame, t, [(INT(acc, 8), p) for p, acc in states], depth)
         if (" as std::cmp::PartialOrd>::" in name or " as std::cmp::PartialEq>::" in name) and len(args) == 2:
             meth = name.rsplit("::", 1)[1]
             a, b = self.scalar_rank(self._deref_all(path, args[0])), self.scalar_rank(self._deref_all(path, args[1]))
